@@ -123,6 +123,20 @@ type Result struct {
 	// Stragglers: goroutines started by the generator were still running when it returned.
 	Stragglers bool   `json:"stragglers,omitempty"`
 	LateWrite  string `json:"late_write,omitempty"` // a file changed after the generator had returned
+	// go-scheduler: goroutines the generator started itself ran as tasks, interleaved by the tape
+	SchedTasks    int      `json:"sched_tasks,omitempty"`
+	SchedPicks    int      `json:"sched_picks,omitempty"`
+	SchedDeviated int      `json:"sched_deviated,omitempty"` // decisions that did not take the first candidate
+	SchedGaveUp   string   `json:"sched_gave_up,omitempty"`
+	SchedTrace    []string `json:"-"`
+}
+
+func (r *Result) noteSched() {
+	r.SchedTasks, r.SchedPicks, r.SchedDeviated, r.SchedGaveUp = verifhook.SchedTasks, verifhook.SchedPicks, verifhook.SchedDeviated, verifhook.SchedGaveUp
+	r.SchedTrace = append([]string(nil), verifhook.SchedTrace...)
+	if verifhook.TaskPanic != "" && r.Panic == "" {
+		r.Panic = "in a goroutine started by the generator: " + verifhook.TaskPanic
+	}
 }
 
 // runDirRe strips the per-execution scratch directory (its number depends on how
@@ -174,6 +188,7 @@ func RunInProcess(inv Invocation, inDir, outDir string, s Sched, root string) (r
 	if runtime.NumGoroutine() > goroutinesBefore {
 		res.Stragglers = true
 		atReturn := Snapshot(outDir)
+		verifhook.Drain() // tasks of the go-scheduler are parked: let them run to their end under the same tape
 		for i := 0; i < 300 && runtime.NumGoroutine() > goroutinesBefore; i++ {
 			time.Sleep(time.Millisecond)
 		}
@@ -192,6 +207,7 @@ func RunInProcess(inv Invocation, inDir, outDir string, s Sched, root string) (r
 	}
 	sort.Ints(res.Deviated)
 	res.Events = events
+	res.noteSched()
 	res.Seen = map[int]int{}
 	for k, v := range verifhook.RunSeen {
 		res.Seen[k] = v
@@ -233,6 +249,11 @@ func RunDirInProcess(invs []Invocation, names []string, rootDir string, s Sched,
 			res.Err = e.Error()
 		}
 	}()
+	if verifhook.TasksAlive() > 0 {
+		res.Stragglers = true
+		verifhook.Drain()
+	}
+	res.noteSched()
 	for id := range verifhook.RunDeviated {
 		res.Deviated = append(res.Deviated, id)
 	}
